@@ -36,4 +36,11 @@ normalisation of the two inequalities. -/
 macro "sn_mask_norm" : tactic =>
   `(tactic| (refine decide_eq_decide.2 ⟨fun h => ?_, fun h => ?_⟩ <;> first | exact h | linarith))
 
+/-- Closes a goal `f a₁ … = g b₁ …` obtained after unfolding a generated formula: literals are normalised, then
+the two sides are compared up to ring normalisation (also under `^`, `exp`, `log`, `Gamma`).  Terminal (fails
+instead of leaving a goal open); used as `simp only [defs] <;> dist_norm` in `DistOps.lean`, `WbOps.lean`,
+`W2GOps.lean`. -/
+macro "dist_norm" : tactic =>
+  `(tactic| ((try norm_num1); first | rfl | ring1 | (ring_nf; done) | (congr 1 <;> ring_nf; done)))
+
 end Qats
